@@ -52,6 +52,13 @@ fn flow_one(challenge: PkceCodeChallenge, verifier: PkceCodeVerifier, response_t
         areq = areq.set_pkce_challenge(PkceCodeChallenge::from_code_verifier_sha256(&PkceCodeVerifier::new("d".repeat(64))));
     }
     let mut areq = areq.set_pkce_challenge(challenge);
+    if twice || plain_http {
+        // every other builder call after the challenge: none of them loses it
+        areq = areq
+            .set_redirect_uri(std::borrow::Cow::Owned(RedirectUrl::new("https://client.example/cb".to_string()).unwrap()))
+            .add_scope(Scope::new("read".to_string()))
+            .add_extra_param("prompt", "login");
+    }
     if let Some(rt) = response_type {
         areq = areq.set_response_type(&ResponseType::new(rt.to_string()));
     }
@@ -86,6 +93,20 @@ fn flow_one(challenge: PkceCodeChallenge, verifier: PkceCodeVerifier, response_t
     if twice {
         xreq = xreq.set_pkce_verifier(PkceCodeVerifier::new("e".repeat(64)));
     }
+    // the verifier parked in a session store between the two legs (as text, as an owned value, through a reader)
+    let verifier = if twice {
+        match serde_json::to_value(&verifier).ok().and_then(|v| serde_json::from_value::<PkceCodeVerifier>(v).ok()) {
+            Some(v) => v,
+            None => return ("verifier-does-not-survive-its-own-serde".to_string(), ch, m),
+        }
+    } else if plain_http {
+        match serde_json::to_vec(&verifier).ok().and_then(|v| serde_json::from_reader::<_, PkceCodeVerifier>(&v[..]).ok()) {
+            Some(v) => v,
+            None => return ("verifier-does-not-survive-its-own-serde".to_string(), ch, m),
+        }
+    } else {
+        verifier
+    };
     let _ = xreq.set_pkce_verifier(verifier).request(&http);
     let body = cap.borrow().as_ref().map(|r| r.body().clone()).unwrap_or_default();
     let mut ver = String::new();
